@@ -43,7 +43,7 @@ class OraclePolicy:
     def next(self, elapsed_time: float, attempts: int, error: Exception, seed: int | None = None) -> float | None:
         r = self.rng.random()
         delay: float | None
-        if r < 0.04:
+        if r < 0.08:
             self.log.append((self.step, elapsed_time, attempts, error, "RAISE"))
             raise RuntimeError("policy bug")
         if r < 0.35:
@@ -336,9 +336,13 @@ def run_pair(g: Gen, illformed: bool) -> tuple[list[str], list[str], dict]:
     except (ValueError, KeyError, IndexError):
         out = "crash"
     except RuntimeError as e:
+        # an exception of the retry policy escaping the reducer (the tree before the repair of
+        # C04/engine_side_failure_no_terminal_event): the model catches it, so this is a divergence
         if "policy bug" not in str(e):
             raise
         out = "crash"
+        info["policy_escaped"] = True
+    if any(x[-1] == "RAISE" for x in g.pol_log):
         info["policy_raised"] = True
     ops.append(f"reduce {enc.num(now)} {oracle_tokens(g.pol_log)} {enc.tick(tk)}")
     outs.append(out)
